@@ -94,7 +94,7 @@ example : ∃ (prog : List (Stmt Nat)) (s : Nat), checksFirst prog = false ∧
     store exactly as they were (every reachable or unreachable state, every request). -/
 theorem C10_frame_node (c : Cfg) (s s' : St) (op : Op)
     (h : step c s op = some (s', .err)) : s'.mem = s.mem ∧ s'.disk = s.disk := by
-  cases op <;> simp only [step, allowlistOp, keysend, newChannel, forgetChannel, restart] at h
+  cases op <;> simp only [step, allowlistOp, keysend, newChannel, forgetChannel, restart, heartbeat, addBlocks, removeBlock] at h
   all_goals (repeat' split at h)
   all_goals first
     | (cases h <;> exact ⟨rfl, rfl⟩)
